@@ -229,8 +229,8 @@ def build_shapes(trees: List[Tuple[str, ast.Module]]) -> Dict[str, Dict[str, Lis
                 continue
             cmps = sorted({ast.unparse(n) for n in _preorder(fn) if _flippable(n)})
             ifs = sorted({ast.unparse(n.test) for n in _preorder(fn) if _plain_else(n)})
-            if cmps or ifs:
-                table[q] = {"compare": cmps, "if_else": ifs}
+            table[q] = {"compare": cmps, "if_else": ifs, "params": [a.arg for a in fn.args.posonlyargs + fn.args.args],
+                        "kwonly": [a.arg for a in fn.args.kwonlyargs]}
     return table
 
 
@@ -291,6 +291,51 @@ def contract(tree: ast.Module, modname: str, table: Dict[str, Dict[str, List[str
     return log
 
 
+def recover_params(tree: ast.Module, modname: str, table: Dict[str, Dict[str, List[str]]]) -> List[str]:
+    """A pinned function whose parameters were renamed (same count, same positions) gets the pinned parameter names back inside its
+    body.  Keyword arguments at call sites are left alone (no rule reads them for the functions concerned)."""
+    log: List[str] = []
+    done: Set[str] = set()
+    for q, fn in _functions(tree, modname):
+        ent = table.get(q)
+        if not ent or q in done or "params" not in ent:
+            continue
+        done.add(q)
+        mapping: Dict[str, str] = {}
+        args_by_name: Dict[str, ast.arg] = {}
+        for cur, pinned in ((fn.args.posonlyargs + fn.args.args, ent["params"]), (fn.args.kwonlyargs, ent.get("kwonly", []))):
+            if len(cur) != len(pinned):
+                continue
+            for a, want in zip(cur, pinned):
+                if a.arg != want:
+                    mapping[a.arg] = want
+                    args_by_name[a.arg] = a
+        if not mapping:
+            continue
+        used = {n.id for st in fn.body for n in _preorder(st) if isinstance(n, ast.Name)}
+        own = {a.arg for a in fn.args.posonlyargs + fn.args.args + fn.args.kwonlyargs} | {x.arg for x in (fn.args.vararg, fn.args.kwarg) if x}
+        nested = set()
+        for st in fn.body:
+            for n in _preorder(st):
+                if isinstance(n, FuncT + (ast.Lambda,)):
+                    a = n.args
+                    nested |= {x.arg for x in a.posonlyargs + a.args + a.kwonlyargs} | {x.arg for x in (a.vararg, a.kwarg) if x}
+                elif isinstance(n, ast.ExceptHandler) and n.name:
+                    nested.add(n.name)
+        targets_free = (used | own | nested) - set(mapping)
+        mapping = {old: new for old, new in mapping.items() if new not in targets_free and old not in nested}
+        if len(set(mapping.values())) < len(mapping):
+            continue
+        for old, new in mapping.items():
+            args_by_name[old].arg = new
+            log.append(f"{q}: parameter {old} -> {new}")
+        for st in fn.body:
+            for n in _preorder(st):
+                if isinstance(n, ast.Name) and n.id in mapping:
+                    n.id = mapping[n.id]
+    return log
+
+
 def load_shapes() -> Optional[Dict[str, Dict[str, List[str]]]]:
     if not os.path.exists(SHAPES):
         return None
@@ -344,7 +389,7 @@ if __name__ == "__main__":
     print(len(t), "functions,", sum(len(v) for v in t.values()), "locals")
     sh = build_shapes(trees)
     for q, lst in build_augassign(root).items():
-        sh.setdefault(q, {"compare": [], "if_else": []})["augassign"] = lst
+        sh[q]["augassign"] = lst
     with open(SHAPES, "w") as f:
         json.dump(sh, f, indent=0, sort_keys=True)
     print(len(sh), "functions with comparisons / if-else")
